@@ -191,11 +191,31 @@ def oZip (src : Obsv) (others : List Obsv) : Obsv := fun s =>
        fun serial => sc.sinkComplete serial))
     fun os => subscribeAll ((src :: others).zip os)
 
-def oCombineLatest (f : Fn2) (src : Obsv) (others : List Obsv) : Obsv :=
-  fwdOp (oZip src others) fun sc _ x =>
-    sc.sinkNext (match x.toList with
-      | a :: rest => rest.foldl f.app a
-      | [] => .unit)
+/-- `register` of src/operators/combine_latest.rs: store the item in slot `id` and snapshot the slots under the
+    write guard of the `latest` cell; emit `combine_f` of the latest items AFTER the guard has been released -/
+def clRegister (f : Fn2) (sc : Sctl) (c id : Nat) (x : Data) : Prog :=
+  .lockAcq (.cell c) true <|
+  .cellRead c true fun ls =>
+    let l := ls.toList.set id (Data.optEnc (some x))
+    .cellWrite c true (Data.ofList l) <|
+    .lockRel (.cell c) <|
+    if l.all (fun o => (Data.optDec o).isSome) then
+      sc.sinkNext (match l.map (fun o => (Data.optDec o).getD .unit) with
+        | a :: rest => rest.foldl f.app a
+        | [] => .unit)
+    else .done
+
+/-- combine_latest.rs: one controller, the `latest` cell (one slot per source, the receiver is number 0), observers
+    created for all sources first (serials in creation order, as in zip) and then subscribed in order -/
+def oCombineLatest (f : Fn2) (src : Obsv) (others : List Obsv) : Obsv := fun s =>
+  sctlNew s fun sc =>
+  .cellNew (Data.ofList (List.replicate (others.length + 1) (Data.optEnc none))) fun c =>
+  newObservers sc (others.length + 1)
+    (fun id =>
+      (fun _ x => clRegister f sc c id x,
+       fun _ e => sc.sinkError e,
+       fun serial => sc.sinkComplete serial))
+    fun os => subscribeAll ((src :: others).zip os)
 
 /-- amb: `is_win(serial)` claims the winner cell; losers abort themselves -/
 def ambIsWin (w : Nat) (serial : Nat) (k : Bool → Prog) : Prog :=
